@@ -61,6 +61,24 @@ def build(fmt):
     return a
 
 
+def build_resurrected(fmt):
+    """a file deleted and re-added with the same file id (fresh per-file history) while another file has the SAME candidate versions
+    but a different per-file graph: the heads must be computed per file"""
+    dt, t = mk(fmt, "res_" + fmt.replace(".", "_"))
+    for n_ in ("f", "g", "h"):
+        w(dt, n_, "base %s\n" % n_)
+    t.add(["f", "g", "h"], ids=[b"f-id", b"g-id", b"h-id"]); ci(t, "r1", b"r1")
+    do = dt + "_o"
+    o = t.controldir.sprout(do).open_workingtree()
+    w(do, "f", "base f\nother f\n"); w(do, "g", "base g\nother g\n"); ci(o, "Q", b"Q")
+    w(do, "h", "base h\nother h\n"); ci(o, "Q2", b"Q2")
+    t.pull(o.branch, stop_revision=b"Q")
+    t.remove(["f"], keep_files=False); ci(t, "D", b"D")
+    w(dt, "f", "resurrected f\n"); t.add(["f"], ids=[b"f-id"]); w(dt, "g", "base g\nother g\ntrunk g\n"); ci(t, "P", b"P")
+    t.merge_from_branch(o.branch); ci(t, "M", b"M")
+    return t
+
+
 def entries(tree):
     return dict((e.file_id, (p, e)) for p, e in tree.iter_entries_by_dir() if e.kind in ("file", "symlink") or p)
 
@@ -77,8 +95,8 @@ def same_entry(t1, p1, e1, t2, p2, e2, parent_of):
 
 tried = 0
 try:
-    for fmt in ("2a", "pack-0.92"):
-        a = build(fmt)
+    for fmt, builder in (("2a", build), ("pack-0.92", build), ("2a", build_resurrected), ("pack-0.92", build_resurrected)):
+        a = builder(fmt)
         repo = a.branch.repository
         with repo.lock_read():
             revs = [r for r in repo.all_revision_ids()]
